@@ -1,5 +1,6 @@
 import SpdxVerif.Props.C05
 import SpdxVerif.Props.Consts
+import SpdxVerif.Props.C01Text
 #print axioms Spdx.C05.parseTokens_iff
 #print axioms Spdx.C05.accepts_iff
 #print axioms Spdx.C05.D_unique
@@ -21,3 +22,7 @@ import SpdxVerif.Props.Consts
 #print axioms Spdx.ConstsPin.parseAtom_literals
 #print axioms Spdx.ConstsPin.isAnd_literals
 #print axioms Spdx.ConstsPin.isOr_literals
+#print axioms Spdx.C01.parse_rendered
+#print axioms Spdx.lexeme_word
+#print axioms Spdx.scan_seqOK
+#print axioms Spdx.scan_append
